@@ -241,7 +241,8 @@ PROPS["C11"] = dict(
                "reporting success has every file complete and identical, a side that failed locally and can still talk sent a fail line, T+2 s after both returned no new goroutine "
                "of the client process is inside transfer code, and the server process has exited.",
     level_note="The server's wait for the ACT line has no timeout by design, so faults start after it. Timing verdicts are re-run twice and reported only if they reproduce. The thorough tier "
-               "runs the same enumeration at stride 1 and includes the lost-CFG points; schedule perturbation (yield-instrumented build) is not part of this check yet.",
+               "runs the same enumeration at stride 1 and includes the lost-CFG points. A sample of the points is run again on the yield-instrumented client with plans of 1-4 "
+               "delays at weighted sites of the pipeline stages (channel operations, selects, cancellation, waits); deadlocks that need an interleaving the perturbation does not produce can be missed.",
     rule="non-trivial = the fault fired and the transfer did not simply succeed; distinct by SHA-1 of the case JSON (scenario, event, fault)",
     tests=[dict(name="TestVF_C11", rapid=False, env=dict(VERIF_CASE_LIMIT=300),
                 quick=dict(shards=32, timeout=1800, env=dict(VERIF_C11_STRIDE=14)),
@@ -348,6 +349,11 @@ PROPS["C10"]["yield"] = ["transfer.go", "pipeline.go", "buffer.go", "filter.go",
 PROPS["C10"]["tests"].append(dict(name="TestVF_C10Perturbed", rapid=False, env=dict(VERIF_CASE_LIMIT=300),
                                   quick=dict(shards=32, timeout=1200, env=dict(VERIF_C10P_STRIDE=40)),
                                   thorough=dict(shards=32, timeout=14000, env=dict(VERIF_C10P_STRIDE=1))))
+
+PROPS["C11"]["yield"] = ["transfer.go", "pipeline.go", "buffer.go", "filter.go", "append.go", "archive.go"]
+PROPS["C11"]["tests"].append(dict(name="TestVF_C11Perturbed", rapid=False, env=dict(VERIF_CASE_LIMIT=300),
+                                  quick=dict(shards=32, timeout=1800, env=dict(VERIF_C11P_STRIDE=12)),
+                                  thorough=dict(shards=32, timeout=20000, env=dict(VERIF_C11P_STRIDE=1))))
 
 # native fuzz targets (thorough tier only; Go's fuzzer cannot be pinned to a seed, a saved crasher is the reproducible unit)
 for _pid in ["C03", "C04", "C06", "C15", "C16", "C20"]:
